@@ -26,6 +26,7 @@ import (
 
 	"github.com/jf-tech/omniparser"
 	"github.com/jf-tech/omniparser/customfuncs"
+	"github.com/jf-tech/omniparser/errs"
 	"github.com/jf-tech/omniparser/extensions/omniv21"
 	v21funcs "github.com/jf-tech/omniparser/extensions/omniv21/customfuncs"
 	"github.com/jf-tech/omniparser/extensions/omniv21/fileformat"
@@ -38,6 +39,7 @@ import (
 	fxml "github.com/jf-tech/omniparser/extensions/omniv21/fileformat/xml"
 	"github.com/jf-tech/omniparser/extensions/omniv21/transform"
 	"github.com/jf-tech/omniparser/idr"
+	"github.com/jf-tech/omniparser/transformctx"
 	"pgregory.net/rapid"
 
 	"verifharness/gen"
@@ -640,6 +642,12 @@ func c12RunReader(c c12Case) obs.Result {
 	} else {
 		classes["terminal=error"] = true
 	}
+	// the same input through the full Transform (ingester + reader): every tree handed out by RawRecord must be sound
+	// too, also after a record the READER failed on (old csv: a malformed row is a per-record failure) and after
+	// records whose transform failed
+	if msg := c12ThroughTransform(c, in); msg != "" {
+		return obs.Violationf("%s\n%s", msg, describe())
+	}
 	obs.Count("c12_reader_trees_audited", audited)
 	obs.Count("c12_reader_pool_reuses_observed", reuses)
 	if reuses > 0 {
@@ -649,6 +657,51 @@ func c12RunReader(c c12Case) obs.Result {
 		classes["reader:two-or-more-records"] = true
 	}
 	return obs.OK(delivered >= 2 && reuses > 0, c12Keys(classes)...)
+}
+
+// c12ThroughTransform drives omniparser.Transform over the input (for the old csv format with a malformed row spliced
+// in after the first line) and audits the tree of every raw record.
+func c12ThroughTransform(c c12Case, in []byte) string {
+	if c.Shape.Format == "csv" && !c.Shape.ReplaceQuotes {
+		if i := bytes.IndexByte(in, '\n'); i >= 0 {
+			bad := []byte("ab\"cd" + c.Shape.Delim + "x\n")
+			spliced := append(append(append([]byte{}, in[:i+1]...), bad...), in[i+1:]...)
+			// also once more in the middle of the rest
+			if j := bytes.LastIndexByte(spliced[:len(spliced)-1], '\n'); j > i+len(bad) {
+				spliced = append(append(append([]byte{}, spliced[:j+1]...), bad...), spliced[j+1:]...)
+			}
+			in = spliced
+		}
+	}
+	sch, err := omniparser.NewSchema("schema", strings.NewReader(c.Shape.Schema()))
+	if err != nil {
+		return ""
+	}
+	tr, err := sch.NewTransform("input", bytes.NewReader(in), &transformctx.Ctx{})
+	if err != nil {
+		return ""
+	}
+	for i := 0; i < 2*len(in)+64; i++ {
+		_, err := tr.Read()
+		if err != nil {
+			if errs.IsErrTransformFailed(err) {
+				continue
+			}
+			return ""
+		}
+		rr, rerr := tr.RawRecord()
+		if rerr != nil {
+			return fmt.Sprintf("through Transform: RawRecord after successful Read #%d failed: %v", i+1, rerr)
+		}
+		n, ok := rr.Raw().(*idr.Node)
+		if !ok || n == nil {
+			continue
+		}
+		if err := model.AuditTree(n); err != nil {
+			return fmt.Sprintf("through Transform (input %q): the tree of the record delivered by Read #%d is not sound: %v", in, i+1, err)
+		}
+	}
+	return ""
 }
 
 // ---------------------------------------------------------------------------------------------
